@@ -166,5 +166,5 @@ def check_after_mutation(case, ctx):
 
 
 def subchecks():
-    return [HypSub("pairs", pair_cases, check, 12000, 150000),
-            HypSub("after_mutation", mutation_cases, check_after_mutation, 3000, 40000)]
+    return [HypSub("pairs", pair_cases, check, 20000, 300000),
+            HypSub("after_mutation", mutation_cases, check_after_mutation, 8000, 80000)]
